@@ -893,7 +893,8 @@ func c05After(c *Ctx, n eqNode, a, b any, size int) {
 	for _, x := range inB {
 		switch tv := x.(type) {
 		case stackage.Stack:
-			tv.SetParen(true).SetNoPadding(true).SetLeadOnce(true).SetEncap("'").SetSymbol("sym").SetDelimiter(";").SetID("dressed").SetCategory("cat").SetAuxiliary(stackage.Auxiliary{"k": 1}).SetLogLevel("all")
+			tv.SetParen(true).SetNoPadding(true).SetLeadOnce(true).SetEncap("'").SetSymbol("sym").SetDelimiter(";").SetID("dressed").SetCategory("cat").SetAuxiliary(stackage.Auxiliary{"k": 1}).SetLogLevel("all").
+				SetForwardIndices(true).SetNegativeIndices(true).SetMutex() // (how positions may be addressed, and locking, are not content either)
 		case stackage.Condition:
 			tv.SetParen(true).SetNoPadding(true).SetEncap("'").SetID("dressed").SetCategory("cat").SetAuxiliary(stackage.Auxiliary{"k": 1}).SetLogLevel("all")
 		}
@@ -1108,6 +1109,9 @@ func c05SharedBacking(c *Ctx) int {
 
 func init() {
 	register(&Check{ID: "C05", Engine: "B", Run: func(c *Ctx) {
+		if msg := sameNamedStructs(); msg != "" {
+			c.Violation("same-named-struct-types", "two distinct struct types that print the same name (function-local declarations) with different exported fields: "+msg, nil, 0)
+		}
 		c.Bound["pairs_of_leaves_sharing_a_backing_array"] = c05SharedBacking(c)
 		trees := c05Trees(c)
 		c.Rule = "every tree of the bounded family (leaves: int, string, float, bool, uint8, *int, **string, []int, [3]int, []string, map[string]int, struct, *struct, struct with embedded field, struct with unexported field; Conditions over those; nested stacks with/without capacity; an alias) built twice independently, and every single-point mutation of it (each leaf, each slice/array/map position, renamed map key, keyword, operator, kind, capacity, sibling swap, one element more/fewer) compared in both directions; non-trivial = distinct (tree, mutation) pairs"
